@@ -307,11 +307,22 @@ pub fn run_rta(ctx: &mut Ctx) {
         }
         let k = ctx.rng.gen_range(0..=3);
         let mut others: Vec<Value> = (0..k).map(|_| gen_task(&mut ctx.rng, &o, 4, scalar_all)).collect();
-        if policy.starts_with("edf") && ctx.rng.gen_bool(0.5) {
-            // later-deadline interferers: the blocking term of the EDF analyses matters
-            let dt = u(&tua["D"]);
-            for ot in others.iter_mut() {
-                ot["D"] = json!(dt + ctx.rng.gen_range(1..=2 * tmax));
+        let mut tua = tua;
+        if policy.starts_with("edf") {
+            match ctx.rng.gen_range(0..3) {
+                0 => {
+                    // later-deadline interferers: the blocking term of the EDF analyses matters
+                    let dt = u(&tua["D"]);
+                    for ot in others.iter_mut() {
+                        ot["D"] = json!(dt + ctx.rng.gen_range(1..=2 * tmax));
+                    }
+                }
+                1 => {
+                    // earlier-deadline interferers: their step offsets are shifted towards zero
+                    let dmax = others.iter().map(|ot| u(&ot["D"])).max().unwrap_or(1);
+                    tua["D"] = json!(dmax + ctx.rng.gen_range(1..=2 * tmax));
+                }
+                _ => {}
             }
         }
         let b = if ctx.rng.gen_bool(0.4) { 0 } else { ctx.rng.gen_range(0..=4) };
